@@ -203,6 +203,28 @@ func runUpd(c maskCase, out *hx.Out) {
 		})
 		out.Write(o)
 	}
+	// 2c. through Collection.Update creating the item (create-if-absent on an absent id): a created item starts
+	// from nothing and obeys the masks like any other write
+	if proto.Equal(mini.Conc(c.Old), &testproto.TestAllTypes{}) {
+		o := base
+		o.Via = "collection.create"
+		o.Panic = hx.Catch(func() {
+			var ro []resource.Option
+			if !c.W.Nil {
+				ro = append(ro, resource.WithWritableFields(mini.ConcMask(c.W)))
+			}
+			col := resource.NewCollection(ro...)
+			res, err := col.Update("a", mini.Conc(c.Wr), append(writeOpts(c), resource.WithCreateIfAbsent())...)
+			o.Err = hx.Code(err)
+			if err == nil {
+				o.Res = mini.Abs(res)
+			}
+			if got, ok := col.Get("a"); ok {
+				o.Post = mini.Abs(got)
+			}
+		})
+		out.Write(o)
+	}
 	// 3. through Collection.Update
 	{
 		o := base
@@ -336,6 +358,24 @@ func runProj(c maskCase, out *hx.Out) {
 		o.Res = mini.Abs(evB.Value)
 		o.Post = mini.Abs(v.Get())
 	})
+	emit("collection.pullid.seed", func(o *projObs) {
+		col := resource.NewCollection(resource.WithInitialRecord("a", mini.Conc(c.Msg)), resource.WithInitialRecord("b", mini.Conc(mini.Empty())))
+		ctx, cancel := context.WithCancel(context.Background())
+		defer cancel()
+		ch := col.PullID(ctx, "a", resource.WithReadMask(fm), resource.WithBackpressure(true))
+		select {
+		case ev, ok := <-ch:
+			if !ok {
+				o.Res.X = append(o.Res.X, "<closed>")
+			} else {
+				o.Res = mini.Abs(ev.Value)
+			}
+		case <-time.After(5 * time.Second):
+			o.Res.X = append(o.Res.X, "<timeout>")
+		}
+		after, _ := col.Get("a")
+		o.Post = mini.Abs(after)
+	})
 	emit("collection.pull.update", func(o *projObs) {
 		// the update event's NEW value is the projection of the written message,
 		// its OLD value the projection of the previous one
@@ -412,14 +452,17 @@ type nameVals struct {
 	Pc    int `json:"pc"`
 }
 type namesObs struct {
-	K     string    `json:"k"`
-	Via   string    `json:"via"`
-	M     mini.Mask `json:"M"`
-	W     mini.Mask `json:"W"`
-	Err   string    `json:"err"`
-	Old   nameVals  `json:"old"`
-	Post  nameVals  `json:"post"`
-	Panic string    `json:"panic"`
+	// CrossErr: the same update mask validated against ANOTHER message type (the all-kinds test message, which has
+	// none of these fields) right after it was accepted for this one
+	CrossErr string    `json:"crossErr"`
+	K        string    `json:"k"`
+	Via      string    `json:"via"`
+	M        mini.Mask `json:"M"`
+	W        mini.Mask `json:"W"`
+	Err      string    `json:"err"`
+	Old      nameVals  `json:"old"`
+	Post     nameVals  `json:"post"`
+	Panic    string    `json:"panic"`
 }
 
 var occNames = map[string]string{"st": "state", "stct": "state_change_time", "s": "seconds", "pc": "people_count"}
@@ -488,6 +531,7 @@ func runNames(c maskCase, out *hx.Out) {
 				u.Merge(dst, src)
 				o.Post = occVals(dst)
 			}
+			o.CrossErr = hx.Code(masks.NewFieldUpdater(masks.WithUpdateMask(occMask(c.M))).Validate(&testproto.TestAllTypes{}))
 		})
 		out.Write(o)
 	}
